@@ -87,7 +87,8 @@ impl StatSlot for ResourceNodeStatSlot {
     }
 
     fn on_completed(&self, ctx: &mut EntryContext) {
-        let round_trip = curr_time_millis() - ctx.start_time();
+        // the wall clock may have been stepped back since the entry was built
+        let round_trip = curr_time_millis().saturating_sub(ctx.start_time());
         ctx.set_round_trip(round_trip);
         if let Some(stat_node) = ctx.stat_node().clone() {
             self.record_complete_for(stat_node, ctx.input().batch_count(), round_trip);
